@@ -110,11 +110,12 @@ ASSUMPTIONS = [
     'items by identity first)',
     'cell geometry at inlining time is never a bare CellRef (pot_fill always '
     'builds a (\'*\', ., .) node)',
-    'with FILL/TRCL transformations (C13_options_same_written_tr_linked): the '
-    'interface law of transformed surfaces (C04) and their TRIPOLI-4 level '
-    'reading (sigmaM sigma matching = senv at the point), and that the two '
-    'runs read the surfaces of the deck alike, are hypotheses; the conversion '
-    'lists are given; lattices (develop_lattice) are outside the model',
+    'with FILL/TRCL transformations (C13_options_same_written_tr_env_linked): '
+    'the surface environment of each run is constructed from the senses of '
+    'the deck\'s surfaces by the interface law (discharged: C13_senv_of_ok); '
+    'still assumed: a model D of the final cell table of each run, and the '
+    'TRIPOLI-4 level reading of that environment at the point (C02/C04); the '
+    'conversion lists are given; lattices (develop_lattice) are outside',
     'helper planes: sigma u0 -> sigma u1 (x > 1 implies x > -1) is a '
     'hypothesis of the volume-level theorems (C01_partition_points proves it '
     'for real points)',
